@@ -357,6 +357,26 @@ R5_EXCEPT_STATES = {
     'LINEDIR': 'a #line directive in the input has just set linenum to the number of the NEXT line: the newline that ends the directive must not be counted',
 }
 
+def newline_counters(prog):
+    """functions that advance linenum once per newline of a string argument: a store linenum = linenum + 1 that is control
+    dependent on a comparison of a loaded byte with '\\n', inside a loop (the comparison block reaches itself), in a
+    function with a pointer parameter and no other store to linenum.  A call of one of them with the token text counts as
+    advancing linenum in C20.R5."""
+    out = {}
+    for f in set(prog.functions.values()):
+        if f.name in ('flexscan', 'yylex'): continue
+        res = ir.Resolver(f)
+        sts = [x for x in f.ins if x.op == 'store' and res.loc(x.ops[1]) == ('global', 'linenum')]
+        if len(sts) != 1: continue
+        x = sts[0]; d = f.def_of(x.ops[0])
+        if d is None or d.op != 'add' or ('int', 1) not in d.ops: continue
+        cfg = prog.cfg(f, cut=False)
+        for br, t in cfg.control_deps_closure(x.blk):
+            cmp10 = [c for c in (flow.value_slice(f, br.ops[0]) if br.ops else []) if c.op == 'icmp' and ('int', 10) in c.ops]
+            if cmp10 and any(y.blk is br.blk for y in cfg.reach(br)):
+                out[f.name] = f; break
+    return out
+
 def r5(ctx, sp):
     """flex's own line accounting (every #line it emits is computed from `linenum`): a scan.l rule whose token can
     contain a newline must advance linenum (or push the newline back to be re-scanned); a rule whose token cannot
@@ -373,6 +393,7 @@ def r5(ctx, sp):
         rep.broken('flexscan action switch does not have cases 1..%d: the scan.l model and the generated scanner disagree on the number of rules' % (nrules + 2))
     n = 0
     k = 0
+    counters = newline_counters(prog)
     for r in sp.rules:
         if r.is_eof: continue
         k += 1
@@ -392,6 +413,7 @@ def r5(ctx, sp):
         except c19.Unknown:
             rep.note('C20.R5 scan.l:%d: action not evaluable' % r.line); continue
         incs = [v for v in ev.effects.get('@linenum', ()) if isinstance(v, tuple) and v[0] == 'sym' and 'linenum' in str(v[1]) and 'add' in str(v[1])]
+        incs += [cal for cal, _ in ev.calls if cal in counters]     # helper that counts the newlines of the token
         sets = [v for v in ev.effects.get('@linenum', ()) if v not in incs]
         pushes_back = any(cal in ('yyunput_r', 'yyunput', 'unput') for cal, _ in ev.calls) or bool(re.search(r'\byyless\s*\(|\bunput\s*\(', r.action))
         errors_out = any(cal in ('synerr', 'format_synerr', 'flexfatal', 'flexerror', 'lerr') for cal, _ in ev.calls)
